@@ -14,7 +14,10 @@ def cop(o):
 
 def mk_case(chan, N, M, k, progs, sched, meta=None, probe=False):
     line = "multi chan=%s N=%d M=%d k=%d%s ; " % (chan, N, M, k, " probe=1" if probe else "") + " ; ".join(" ".join(tok(o) for o in p) for p in progs) + " ; S " + " ".join(map(str, sched))
-    coq = "run_multi_arc_atomic%s %d %d %d [%s] [%s]%%nat" % ("_probe" if probe else "", N, M, k, "; ".join("[" + "; ".join(cop(o) for o in p) + "]" for p in progs), "; ".join(map(str, sched)))
+    if chan != "arc_atomic" or any(n in ("createv", "res", "sres", "cres") for p in progs for n, a in p):
+        coq = None                                       # no lock-step model for this kind / these operations: oracle only
+    else:
+        coq = "run_multi_arc_atomic%s %d %d %d [%s] [%s]%%nat" % ("_probe" if probe else "", N, M, k, "; ".join("[" + "; ".join(cop(o) for o in p) + "]" for p in progs), "; ".join(map(str, sched)))
     m = dict(chan=chan, N=N, M=M, k=k, progs=progs, sched=sched, probe=probe); m.update(meta or {})
     return Case(line, coq, m)
 
@@ -100,20 +103,136 @@ def gen_churn(rng, chan):
         else: vac.pop(0); churn = [("creates", [])]
     progs.append(churn)
     churn_tids = [len(progs) - 1]
-    if vac and not any(n == "drops" for n, a in churn) and rng.random() < 0.5:
-        # a second thread creating a listener at the same time (only when nothing is dropped: ids must not run out)
-        progs.append([("creates", [])] + [("pollc", []) for _ in range(rng.randint(0, 2))]); churn_tids.append(len(progs) - 1)
+    ncreates = sum(1 for n, a in churn if n == "creates")
+    own_drop = any(n == "drops" and a[0] >= k for n, a in churn)     # (a removal addressed by id presumes which id its own creation got)
+    if ncreates < M - k and not own_drop and rng.random() < 0.5:
+        # a second thread creating a listener at the same time (within the budget of the ids that are vacant from the start, so that
+        # ids cannot run out whatever the interleaving with the first thread's creations and removals)
+        progs.append([("creates", [])] + [("pollc", []) for _ in range(rng.randint(0, 3))]); churn_tids.append(len(progs) - 1)
     nthreads = len(progs)
     tot = sum(len(p) for p in progs)
     sched = random_sched(rng, nthreads, rng.randint(10, tot * 14), burst=rng.choice([0.3, 0.6, 0.85]))
     for _ in range(60): sched += list(range(nthreads))
     return mk_case(chan, N, M, k, progs, sched, {"profile": "churn", "stayers": stayers, "churn_tids": churn_tids}, probe=True)
 
+def gen_phased(rng, chan):
+    """C10: listeners are added and removed BETWEEN sends, by two threads at the same time: producer A sends alone; then a thread that
+    creates / drops listeners and a second thread that creates one run against each other (every shared access scheduled); then
+    producer B sends alone; then everybody polls.  No send overlaps a creation or a removal."""
+    c = gen_churn(rng, chan)
+    m = c.meta; progs = [list(p) for p in m["progs"]]; cts = m["churn_tids"]
+    # the first thread only removes listeners that exist from the start; the second thread creates one and polls it
+    progs[cts[0]] = [o for o in progs[cts[0]] if o[0] == "drops" and o[1][0] < m["k"]] or [("count", [])]
+    if len(cts) < 2:
+        progs.append([("creates", [])] + [("pollc", []) for _ in range(rng.randint(1, 3))]); cts = cts + [len(progs) - 1]
+    if not any(n == "drops" for n, a in progs[cts[0]]):
+        dr = [i for i in range(m["k"]) if i not in m["stayers"]]
+        if dr: progs[cts[0]] = [("drops", [dr[0]])] + [o for o in progs[cts[0]] if not (o[0] == "drops" and o[1] == [dr[0]])]
+    producers = [t for t, p in enumerate(progs) if p and p[0][0] == "send"]
+    a = producers[0]
+    progs[a] = [("send", [1000 + j]) for j in range(rng.randint(1, 2))]
+    for t in producers[1:]: progs[t] = [("count", [])]
+    progs.append([("send", [2000 + j]) for j in range(rng.randint(1, 3))]); b = len(progs) - 1
+    pollers = [t for t, p in enumerate(progs) if p and p[0][0] in ("drive", "poll")]
+    sched = [a] * (60 * len(progs[a]))
+    for t in pollers: sched += [t] * 12
+    nch = sum(len(progs[t]) for t in cts)
+    sched += [cts[x] for x in random_sched(rng, len(cts), rng.randint(20, 60 * nch), burst=rng.choice([0.3, 0.6, 0.85]))]
+    for _ in range(400): sched += cts
+    sched += [b] * (60 * len(progs[b]))
+    others = [t for t in range(len(progs)) if t != b]
+    for _ in range(60): sched += list(range(len(progs)))
+    return mk_case(chan, m["N"], m["M"], m["k"], progs, sched, {"profile": "churn", "stayers": m["stayers"], "churn_tids": cts, "phased": True}, probe=True)
+
+def gen_recycle_race(rng, chan="arc_atomic"):
+    """C07 / C10: every stream id is in use; one thread removes a listener (every shared access of the removal scheduled) while another
+    thread creates a listener as soon as an id is vacant - possibly before the removal has returned - and polls it; then a producer
+    sends.  The new listener was never told to end: it must not answer end-of-stream and it gets every event sent after its creation."""
+    N = 8; M = rng.choice([1, 2, 4]); k = M
+    victim = rng.randrange(k)
+    stayers = [i for i in range(k) if i != victim]
+    progs = [[("drops", [victim])], [("createv", [])] + [("pollc", []) for _ in range(rng.randint(2, 5))],
+             [("send", [2000 + j]) for j in range(rng.randint(1, 3))]]
+    for i in stayers[:2]: progs.append([("poll", [i]) for _ in range(rng.randint(1, 4))])
+    # the creator stands at its first look at the vacant count, the remover gets r steps, then the two alternate
+    sched = [1] + [0] * rng.randint(1, 40)
+    sched += [x for x in random_sched(rng, 2, rng.randint(10, 120), burst=rng.choice([0.3, 0.6, 0.85]))]
+    for _ in range(60): sched += [0, 1]
+    sched += [2] * 200
+    for _ in range(40): sched += list(range(len(progs)))
+    return mk_case(chan, N, M, k, progs, sched, {"profile": "churn", "stayers": stayers[:2], "churn_tids": [0, 1], "recycle": True}, probe=False)
+
+def gen_multi_reserve(rng, chan):
+    """C08 on a Multi channel: one thread, k in 0..2 listeners (none at all included), a sequential history of reserve / fill +
+    send-reserved (the oldest outstanding first, now and then another) / cancel (the latest) / send / poll (which releases the payload);
+    at the end everything is resolved and consumed and BUFFER_SIZE reservations are attempted"""
+    N = rng.choice([4, 8]); M = 2; k = rng.choice([0, 0, 1, 2])
+    prog = []; out = []; kk = 0; val = 100
+    for _ in range(rng.randint(4, 3 * N)):
+        r = rng.random()
+        if r < 0.4 and kk < 50 and len(out) < N:
+            prog.append(("res", [kk, val])); out.append(kk); kk += 1; val += 1
+        elif r < 0.7 and out:
+            prog.append(("sres", [out.pop(0)]))
+        elif r < 0.8 and out:
+            prog.append(("cres", [out.pop()]))
+        elif r < 0.9 and not out:
+            prog.append(("send", [val])); val += 1
+        elif k:
+            prog.append(("poll", [rng.randrange(k)]))
+    while out: prog.append(("sres", [out.pop(0)]) if rng.random() < 0.6 else ("cres", [out.pop()]))
+    for i in range(k): prog += [("poll", [i])] * (3 * N + 2)
+    base = kk
+    prog += [("res", [base + j, 900 + j]) for j in range(N)]
+    prog += [("cres", [base + j]) for j in reversed(range(N))]
+    sched = [0] * (len(prog) * 40 + 50)
+    return mk_case(chan, N, M, k, [prog], sched, {"profile": "reserve"})
+
+def oracle_multi_reserve(case, recs):
+    """a reservation is refused ('no slot') only if BUFFER_SIZE slots are taken: by outstanding reservations or by events some listener
+    has not consumed yet (each poll releases the payload at once; with no listener an event takes no slot); sent reservations reach
+    every listener exactly once with the written value, cancelled ones nobody"""
+    hits = []
+    prog = case.meta["progs"][0]; N = case.meta["N"]; k = case.meta["k"]
+    rets = [r for r in recs if r[0] == "ret" and r[1] == 0]
+    val = {a[0]: a[1] for n, a in prog if n == "res"}
+    outstanding = set(); queue = {i: [] for i in range(k)}; cancelled = set()
+    for r in recs:
+        if r[0] == "panic": hits.append((None, "panic in thread %d" % r[1]))
+    for (n, a), r in zip(prog, rets):
+        occ = len(outstanding) + len({v for i in queue for v in queue[i]})
+        if n == "res":
+            if r[2] == 20: outstanding.add(a[0])
+            elif r[2] == 21 and occ < N:
+                hits.append((None, "reserve_slot answered 'no slot' although only %d of %d slots are taken (%d reservations outstanding, %d events not yet consumed by every listener)" % (occ, N, len(outstanding), occ - len(outstanding))))
+        elif n == "sres":
+            if r[2] == 27:
+                outstanding.discard(a[0])
+                for i in queue: queue[i].append(val[a[0]])
+        elif n == "cres":
+            if r[2] == 24: outstanding.discard(a[0]); cancelled.add(val[a[0]])
+        elif n == "send":
+            if r[2] == 10:
+                for i in queue: queue[i].append(a[0])
+            elif r[2] == 11 and occ < N:
+                hits.append((None, "send was rejected as full although only %d of %d slots are taken" % (occ, N)))
+        elif n == "poll":
+            i = a[0]
+            if r[2] == 12:
+                if not queue[i] or queue[i][0] != r[3]:
+                    what = "the content of a cancelled reservation" if r[3] in cancelled else "not the next accepted event %s" % queue[i][:1]
+                    hits.append((None, "listener %d yielded %d: %s" % (i, r[3], what)))
+                    if r[3] in queue[i]: queue[i].remove(r[3])
+                else: queue[i].pop(0)
+            elif r[2] == 13 and queue[i]:
+                hits.append((None, "listener %d answered Pending although %s are queued for it" % (i, queue[i])))
+    return hits
+
 def op_intervals(case, recs):
     """per thread: [(op, first record index, last record index)] for the operations of its program, in order"""
     progs = case.meta["progs"]; out = {t: [] for t in range(len(progs))}
     nxt = {t: 0 for t in out}; cur = {}
-    ends = {"send": (10, 11), "poll": (12, 13, 14, 19), "pollc": (12, 13, 14, 19), "creates": (17, 19), "drops": (18, 19), "create": (17, 19), "drop": (18, 19), "count": (15,)}
+    ends = {"send": (10, 11), "poll": (12, 13, 14, 19), "pollc": (12, 13, 14, 19), "creates": (17, 19), "createv": (17, 19), "drops": (18, 19), "create": (17, 19), "drop": (18, 19), "count": (15,)}
     for idx, r in enumerate(recs):
         if r[0] not in ("acc", "ret"): continue
         t = r[1]
@@ -141,7 +260,10 @@ def oracle_churn(case, recs):
     ok = [r[3] for r in recs if r[0] == "ret" and r[2] == 10]
     iv = op_intervals(case, recs)
     send_iv = {op[1][0]: (a, b) for t in iv for (op, a, b) in iv[t] if op[0] == "send"}
-    churn_iv = [(op[0], a, b) for ct in cts for (op, a, b) in iv.get(ct, []) if op[0] in ("creates", "drops")]
+    churn_iv = [(op[0], a, b) for ct in cts for (op, a, b) in iv.get(ct, []) if op[0] in ("creates", "createv", "drops")]
+    for r in recs:
+        if r[0] == "ret" and r[2] == 14:
+            hits.append((None, "a listener (id %d) answered end-of-stream although nobody told it to end" % r[3]))
     def overlaps(v):
         # the send of v is in progress at some point of a stepped creation / removal (whose used_streams rewrite is in place)
         if v not in send_iv: return False
@@ -170,6 +292,28 @@ def oracle_churn(case, recs):
             for v in ok:
                 if v not in allv:
                     hits.append((MISS if overlaps(v) else None, "listener %d exists throughout but never gets accepted event %d%s" % (i, v, " (its send overlapped a listener creation / removal)" if overlaps(v) else "")))
+    # a listener ADDED during the case (first owner of an id that was vacant from the start): it yields nothing that was sent before its
+    # creation began, and - if it is still alive when the run goes quiet - every event whose send began after its creation returned
+    k0 = case.meta["k"]
+    dropped_ids = {op[1][0] for ct in cts for (op, a, b) in iv.get(ct, []) if op[0] == "drops"}
+    first_owner = {}
+    for ct in cts:
+        for (op, a, b) in iv.get(ct, []):
+            if op[0] in ("creates", "createv") and b < len(recs) and recs[b][0] == "ret" and recs[b][2] == 17:
+                i = recs[b][3]
+                if (i >= k0 or case.meta.get("recycle")) and i not in first_owner: first_owner[i] = (a, b)
+                elif i in first_owner: first_owner[i] = None                 # the id was handed out twice in this case: not judged here
+    for i, ab in first_owner.items():
+        if ab is None: continue
+        a0, b0 = ab
+        allv = per.get(i, []) + (drained.get(i, []) if quiet else [])
+        for v in allv:
+            if v in send_iv and send_iv[v][1] < a0:
+                hits.append((None, "listener %d, created during the run, got event %d whose send had returned before the creation began" % (i, v)))
+        if quiet and i not in dropped_ids:
+            for v in ok:
+                if v in send_iv and send_iv[v][0] > b0 and v not in allv:
+                    hits.append((MISS if overlaps(v) else None, "listener %d, created during the run and alive to the end, never gets event %d, sent and accepted after its creation returned%s" % (i, v, " (its send overlapped another creation / removal)" if overlaps(v) else "")))
     if fin is not None and len(fin) > 3 and isinstance(fin[3], tuple):
         hits.append((None, "after everything live was consumed and released a send never returns (%d of %d further events were accepted before)" % (fin[3][1], case.meta["N"])))
     elif fin is not None and len(fin) > 3 and fin[3] is not None and fin[3] != case.meta["N"]:
